@@ -26,6 +26,13 @@ Families (--tier quick: 3000 histories, thorough: 15000 per seed):
   sigwinch  tickit_term_observe_sigwinch over the main terminal and up to six further ones: observe / stop in any
             order, terminals destroyed at any position of the observer list (mostly third or later), SIGWINCH raised
             afterwards, the main terminal released through its root window
+  drag      drag gestures aimed at a window of a chain root > panel > handle (> grip): the handler of the source (bound before
+            the press, after it, or replaced after DRAG_START) closes / hides / drops / restacks its own window or one above
+            it; the application drops or closes the chain afterwards; further DRAG reports and the RELEASE
+  timers    watches of the toplevel instance (and key handlers on the terminal) that register timers for past, present and
+            future instants and deferred calls while they run
+  termout   the output side through the real xterm driver: tickit_term_set_output_buffer around what is pending, printn,
+            goto, flush, the capability report, setpen / chpen with pens of every attribute (19 SGR parameters)
 exhaustive: every order of <= 5 lifecycle operations on a root with two nested children and one pen
             (DESIGN §7 C08), each followed by flush and end.
 """
@@ -174,7 +181,243 @@ def gen_tree_history(rng, with_handlers, foreign):
     if rng.random() < 0.3: emit("flush")
     emit("end")
 
+def gen_drag_history(rng):
+    """drag gestures aimed at a window: root > panel > handle (> grip), every window's position known to the generator, so
+    that PRESS / DRAG land on the chosen window and DRAG_START reaches its handler.  The handler (bound before the press
+    or between the press and the first drag, so that DRAG_START is the first event it sees) closes, hides, drops or
+    restacks its own window or one of its ancestors and claims the event or not; afterwards, outside any handler, the
+    application drops or closes windows of the chain (the drag source, its parent, its grandparent) in every order, then
+    further DRAG reports (inside the source, elsewhere, outside every window) and the RELEASE arrive."""
+    L, C = rng.choice([(10, 20), (12, 30), (8, 16)])
+    emit("new %d %d" % (L, C))
+    depth = rng.choice([1, 2, 2, 2, 3, 3])
+    # window k+1 is a child of window k; absolute position of each
+    absr = {0: (0, 0, L, C)}
+    chain = [0]
+    t, l, n, c = rng.randint(0, 2), rng.randint(0, 3), rng.randint(5, L - 2), rng.randint(8, C - 3)
+    for d in range(depth):
+        pt, pl, pn, pc = absr[chain[-1]]
+        if d > 0:
+            t, l = rng.randint(0, 1), rng.randint(0, 2)
+            n, c = max(1, pn - t - rng.randint(0, 1)), max(2, pc - l - rng.randint(0, 2))
+        emit("win %d %d %d %d %d %d" % (chain[-1], t, l, n, c, rng.choice([0, 0, 0, 0, 2, 8])))
+        w = len(absr)
+        absr[w] = (pt + t, pl + l, min(n, pn - t), min(c, pc - l))
+        chain.append(w)
+    nw = len(absr)
+    # a sibling or two somewhere (not covering the chain's last window: lowest, or elsewhere)
+    for _ in range(rng.choice([0, 0, 1, 2])):
+        p = rng.choice(chain[:-1])
+        emit("win %d %d %d %d %d 2" % (p, rng.randint(0, 3), rng.randint(0, 6), rng.randint(1, 3), rng.randint(1, 6))); nw += 1
+    src = chain[-1] if rng.random() < 0.8 else rng.choice(chain[1:])
+    st, sl, sn, sc = absr[src]
+    # a cell of the source that no deeper window of the chain covers: its last line / column when it has a child
+    deeper = [w for w in chain if w > src]
+    def inside():
+        if deeper:
+            dt, dl, dn, dc = absr[deeper[0]]
+            cand = [(y, x) for y in range(st, st + sn) for x in range(sl, sl + sc) if not (dt <= y < dt + dn and dl <= x < dl + dc)]
+            if cand: return rng.choice(cand)
+        return (rng.randint(st, st + sn - 1), rng.randint(sl, sl + sc - 1))
+    def anywhere(): return (rng.randint(0, L - 1), rng.randint(0, C - 1))
+    ups = [w for w in chain if w < src and w != 0]          # proper ancestors below the root window
+    def hacts():
+        acts = []
+        for _ in range(rng.choice([1, 1, 1, 2, 2, 3])):
+            r = rng.random()
+            tgt = rng.choice(ups) if ups and rng.random() < 0.65 else (src if rng.random() < 0.8 else rng.choice(chain))
+            if r < 0.50: acts.append("c%d" % tgt)
+            elif r < 0.62: acts.append("u%d" % tgt)
+            elif r < 0.72: acts.append("h%d" % tgt)
+            elif r < 0.80: acts.append("r%d" % tgt)
+            elif r < 0.88: acts.append("%s%d" % (rng.choice("RFLB"), tgt))
+            elif r < 0.94: acts.append("f")
+            else: acts.append("x")
+        return acts
+    def bind(w):
+        ret = rng.choice([1, 1, 1, 0])
+        acts = hacts()
+        if ret == 1:
+            # known finding cascade_steals_claim: a claiming mouse handler drops at most one window
+            seen = False; kept = []
+            for x in acts:
+                if x[0] == "u":
+                    if seen: continue
+                    seen = True
+                kept.append(x)
+            acts = kept
+        emit(("bind %d mouse %d %s" % (w, ret, " ".join(acts))).strip())
+    nbound = {}
+    early = rng.random() < 0.35
+    two_stage = rng.random() < 0.3       # the source claims DRAG_START quietly; what it does later is bound afterwards
+    def bind_src():
+        nbound[src] = nbound.get(src, 0) + 1
+        if two_stage: emit("bind %d mouse 1" % src)
+        else: bind(src)
+    if early: bind_src()
+    if rng.random() < 0.25:
+        w = rng.choice(chain); emit("bind %d mouse 0" % w); nbound[w] = nbound.get(w, 0) + 1
+    py, px = inside()
+    emit("mouse 1 1 %d %d" % (py, px))
+    if not early: bind_src()
+    src_id = nbound[src]
+    if rng.random() < 0.2: emit("flush")
+    y, x = inside() if rng.random() < 0.7 else anywhere()
+    emit("mouse 2 1 %d %d" % (y, x))                       # DRAG_START at the press position, then the DRAG itself
+    if two_stage:
+        # the handler that sees DRAG / DRAG_OUTSIDE / DRAG_DROP / DRAG_STOP (on_term_mouse dispatches the last ones straight to
+        # the drag source: no frame holds its ancestors)
+        if rng.random() < 0.8: emit("unbind %d %d" % (src, src_id))
+        ret = rng.choice([0, 0, 1])
+        acts = hacts()
+        # known findings cascade_steals_claim / cascade_steals_drag_frame: a handler that drops its own window and then a
+        # window above it makes the dying parent take the reference an internal frame holds: only the corpus probes do that
+        seen = False; kept = []
+        for a in acts:
+            if a[0] == "u":
+                if seen: continue
+                seen = True
+            kept.append(a)
+        emit(("bind %d mouse %d %s" % (src, ret, " ".join(kept))).strip())
+    # outside any handler: the application lets go of windows of the chain
+    order = [w for w in chain if w != 0]
+    rng.shuffle(order)
+    for w in order[:rng.choice([0, 1, 1, 2, 3])]:
+        r = rng.random()
+        if r < 0.70: emit("unref %d" % w)
+        elif r < 0.85: emit("close %d" % w)
+        else: emit("ref %d" % w); emit("unref %d" % w)
+    if rng.random() < 0.3: emit("flush")
+    for _ in range(rng.choice([0, 1, 1, 2, 3])):
+        y, x = inside() if rng.random() < 0.5 else anywhere()
+        emit("mouse 2 1 %d %d" % (y, x))
+        if rng.random() < 0.15:
+            w = rng.choice(order); emit("%s %d" % (rng.choice(["unref", "close"]), w))
+    if rng.random() < 0.85:
+        y, x = inside() if rng.random() < 0.5 else anywhere()
+        emit("mouse 3 1 %d %d" % (y, x))
+    if rng.random() < 0.3:
+        # a second gesture on what is left
+        y, x = anywhere(); emit("mouse 1 1 %d %d" % (y, x)); emit("mouse 2 1 %d %d" % anywhere())
+        if rng.random() < 0.5: emit("unref %d" % rng.choice(order))
+        emit("mouse 3 1 %d %d" % anywhere())
+    if rng.random() < 0.3: emit("flush")
+    emit("end")
+
+def gen_timers_history(rng):
+    """timers and deferred calls of the toplevel instance that register further timers and deferred calls while they run:
+    tickit_watch_timer_at_tv for an instant of the harness's clock that has passed (it becomes the head of the queue the
+    loop of tickit_evloop_invoke_timers is working on), that is the present, or that lies ahead; tickit_watch_later from a
+    timer and from a deferred call; handlers bound on the terminal that do the same when a key arrives during tickit_tick;
+    several ticks with the clock advanced in between; the instance dropped with such watches pending."""
+    L, C = rng.choice([(6, 12), (4, 8)])
+    emit("newtop %d %d" % (L, C))
+    nw = 1
+    for _ in range(rng.randint(0, 2)):
+        emit("win %d %d %d %d %d 0" % ((rng.randrange(nw),) + rect(rng))); nw += 1
+    now = 0
+    def reg_acts(n):
+        out = []
+        for _ in range(n):
+            r = rng.random()
+            if r < 0.45: out.append("a%d" % rng.choice([0, 0, max(0, now - 10), now, now, now + 5, now + 50, now + 200]))
+            elif r < 0.65: out.append("l")
+            elif r < 0.75 and nw > 1: out.append("%s%d" % (rng.choice("ucr"), rng.randrange(1, nw)))
+            elif r < 0.85: out.append(rng.choice(["t", "T"]))
+            else: out.append("f")
+        return out
+    if rng.random() < 0.4:
+        emit(("tbind key %d %s" % (rng.choice([0, 1]), " ".join(reg_acts(rng.randint(1, 3))))).strip())
+    inst = 1
+    for _ in range(rng.randint(4, 12)):
+        r = rng.random()
+        if r < 0.30: emit(("itimer %d %s" % (rng.choice([0, 0, 10, 50]), " ".join(reg_acts(rng.randint(1, 4))))).strip())
+        elif r < 0.42: emit(("itimerat %d %s" % (rng.choice([0, max(0, now - 20), now, now + 30]), " ".join(reg_acts(rng.randint(0, 3))))).strip())
+        elif r < 0.55: emit(("ilater " + " ".join(reg_acts(rng.randint(1, 3)))).strip())
+        elif r < 0.80: emit("itick" + (" a" if rng.random() < 0.3 else ""))
+        elif r < 0.90:
+            d = rng.choice([5, 10, 50, 100]); emit("tick %d" % d); now += d
+        elif r < 0.94: emit("icancel %d" % rng.randint(0, 6))
+        elif r < 0.97: emit("iref"); inst += 1
+        else: emit("key")
+    if rng.random() < 0.7: emit("itick")
+    if rng.random() < 0.5:
+        emit("unref 0")
+        for _ in range(inst): emit("iunref")
+    emit("end")
+
 ASCII = [0x41 + i for i in range(26)] + [0x20, 0x61, 0x7e]
+
+PEN_ATTRS = ["fg", "bg", "b", "u", "i", "rv", "strike", "af", "blink", "sizepos"]
+def rand_colour(rng, rich):
+    r = rng.random()
+    if r < 0.08: idx = -1
+    elif r < 0.30: idx = rng.choice([0, 1, 7, 8, 9, 15])
+    else: idx = rng.choice([16, 17, 100, 200, 231, 254, 255])
+    if idx >= 0 and rng.random() < (0.9 if rich else 0.35):
+        return "%d#%02x%02x%02x" % (idx, rng.randrange(256), rng.randrange(256), rng.randrange(256))
+    return "%d" % idx
+def rand_pen(rng, rich):
+    """a pen description in the notation of harness/sgr.c; `rich`: (nearly) every attribute present, both colours with an
+    RGB8 secondary, a styled underline - what needs the most SGR parameters"""
+    if not rich and rng.random() < 0.08: return "-"
+    out = []
+    for a in PEN_ATTRS:
+        if rng.random() > (0.93 if rich else 0.45): continue
+        if a in ("fg", "bg"): v = rand_colour(rng, rich)
+        elif a == "u": v = str(rng.choice([2, 3, 3, 1] if rich else [0, 1, 2, 3]))
+        elif a == "af": v = str(rng.choice([1, 2, 5, 9] if rich else [-1, 0, 1, 3, 9]))
+        elif a == "sizepos": v = str(rng.choice([2, 3] if rich else [0, 2, 3]))
+        else: v = str(1 if rich else rng.choice([0, 1, 1]))
+        out.append("%s=%s" % (a, v))
+    return ",".join(out) or "-"
+
+def gen_termout_history(rng):
+    """the output side of the main terminal through the real xterm driver: tickit_term_set_output_buffer (installed, grown,
+    shrunk below what is pending, to one byte, removed) with output pending from tickit_term_printn / _goto / _setpen,
+    flushed or not; the driver's capabilities switched on by the DECRQSS reply or the xterm.cap_rgb8 control;
+    tickit_term_setpen / _chpen with pens of every attribute (both colours RGB8, styled underline: 19 SGR parameters) -
+    next to quiet lifecycle operations (windows, pens, references) that reach no driver."""
+    kind = rng.choice(["new", "new", "new", "newin"])
+    emit("%s %d %d" % (kind, rng.choice([6, 10]), rng.choice([12, 20])))
+    nw = 1; npens = 0; trefs = 1
+    if rng.random() < 0.75:
+        emit("tcaps %d %d %s" % (rng.choice([1, 1, 1, 0]), rng.choice([1, 1, 0]), rng.choice(["reply", "reply", "ctl"])))
+    buflen = 0; pending = 0
+    def text(n=None):
+        n = n if n is not None else rng.choice([1, 2, 5, 8, 13, 26, 40, 70])
+        return "".join("%02x" % rng.choice(ASCII) for _ in range(n))
+    for _ in range(rng.randint(5, 18)):
+        r = rng.random()
+        if r < 0.20:
+            # a buffer: around what is pending (smaller, equal, one more), tiny, roomy, or none
+            cand = [0, 1, 2, 8, 16, 64, 256]
+            if pending: cand += [max(1, pending - 1), pending, pending + 1, max(1, pending // 2), max(1, pending - 1), 1]
+            buflen = rng.choice(cand); emit("tbuf %d" % buflen); pending = 0
+        elif r < 0.40:
+            n = rng.choice([1, 2, 5, 8, 13, 26, 40, 70]); emit("tprint %s" % text(n))
+            pending = (pending + n) % buflen if buflen else 0
+        elif r < 0.48:
+            emit("tgoto %d %d" % (rng.randint(0, 9), rng.randint(0, 19))); pending = pending + 6 if buflen else 0
+        elif r < 0.58: emit("tflush"); pending = 0
+        elif r < 0.80:
+            rich = rng.random() < 0.6
+            emit("%s %s" % (rng.choice(["tsetpen", "tsetpen", "tchpen"]), rand_pen(rng, rich)))
+            if buflen: pending += 30
+        elif r < 0.84:
+            emit("tcaps %d %d %s" % (rng.choice([1, 0]), rng.choice([1, 0]), rng.choice(["reply", "ctl", "ctl"])))
+        elif r < 0.88:
+            emit("win %d %d %d %d %d 0" % ((rng.randrange(nw),) + rect(rng))); nw += 1
+        elif r < 0.91 and nw > 1: emit("%s %d" % (rng.choice(["unref", "close", "ref", "raise", "hide"]), rng.randrange(1, nw)))
+        elif r < 0.94:
+            if npens == 0 or rng.random() < 0.5: emit("pen"); npens += 1
+            else:
+                k = rng.choice(["pref", "punref", "pset"]); emit("%s %d%s" % (k, rng.randrange(npens), " 3" if k == "pset" else ""))
+        elif r < 0.97: emit(rng.choice(["tref", "tunref", "tref"]))
+        else: emit("tick %d" % rng.choice([10, 60]))
+    if rng.random() < 0.3: emit("tflush")
+    emit("end")
+
 def rand_text(rng, maxchars=8):
     out = []
     for _ in range(rng.randint(0, maxchars)):
@@ -785,11 +1028,52 @@ if a.tier == "exhaustive":
             for o in (["xobs 0 1", "tobs 1", "xobs 1 1", "xobs 2 1"] if len(seq) % 2 else ["tobs 1", "xobs 2 1", "xobs 1 1", "xobs 0 1"]): emit(o)
             for o in seq: emit(o)
             emit("winch"); emit("end"); nsw += 1
-    info = {"mock_display_histories": nm, "terminput_histories": nt, "toplevel_histories": ni, "mock_resize_histories": nr, "sigwinch_histories": nsw}
-    info.update({"exhaustive_bound": "all sequences of <=3 (and a seed-selected quarter of the length-4) operations over a 13-letter lifecycle alphabet on root>1>2, 3 sibling of 1, one pen, one self-unref key handler; each followed by flush and end; tickit_mockterm_get_display_text with every buffer length (short of the known exact-fill overflow) for every span of five fixed lines of multi-byte, double-width and combining cells; all sequences of <=3 operations over a 12-letter alphabet of terminal input calls with a quitting key handler on the terminal, and over a 14-letter alphabet of toplevel-instance calls on root>1>2; tickit_mockterm_resize from 3x4 to every size of 1..5 x 1..6 and on to a second size; all sequences of <=2 (and half of those of 3) operations over a 12-letter alphabet of observe/stop/destroy/SIGWINCH on four observing terminals", "histories": nh})
+    # the output side: every sequence of <= 3 operations (and a seed-selected third of those of 4) over buffer lengths around
+    # what is pending, printing, flushing and the 19-parameter pen, on a terminal with both capabilities
+    RICH = "fg=200#c80a14,bg=100#0102fa,b=1,u=3,i=1,rv=1,strike=1,af=2,blink=1,sizepos=2"
+    alpha_o = ["tbuf 0", "tbuf 1", "tbuf 7", "tbuf 40", "tprint 6162636465", "tprint " + "78" * 12, "tflush", "tsetpen " + RICH,
+               "tchpen fg=3,u=2", "tgoto 2 3"]
+    no = 0
+    for k in range(1, 5):
+        for seq in itertools.product(alpha_o, repeat=k):
+            if k == 4 and (dhash(seq) ^ a.seed) % 3 != 0: continue
+            emit("new 6 12"); emit("tcaps 1 1 %s" % ("reply" if len(seq) % 2 else "ctl"))
+            for o in seq: emit(o)
+            emit("end"); no += 1
+    # timers that register timers: every sequence of <= 3 operations over registrations whose callbacks register a past, a
+    # present and a future timer or a deferred call, ticks and the clock
+    alpha_w = ["itimer 0 a0", "itimer 0 a0 l a5", "itimer 10 a0 a10", "ilater a0 l", "itimerat 0 l", "itick", "itick a", "tick 10",
+               "icancel 1", "tbind key 0 a0 l"]
+    nwt = 0
+    for k in range(1, 4):
+        for seq in itertools.product(alpha_w, repeat=k):
+            emit("newtop 4 8")
+            for o in seq: emit(o)
+            emit("itick")
+            if (dhash(seq) ^ a.seed) % 2: emit("unref 0"); emit("iunref")
+            emit("end"); nwt += 1
+    # drags on root > 1 > 2 (window 2 the source): what the source's handler does (bound before or after the press, claiming
+    # or not), what the application drops afterwards, how the drag goes on
+    ndr = 0
+    for acts in ["", "c1", "c2", "h1", "u2", "c1 r2", "x c1", "R2 c1"]:
+        for early in (0, 1):
+            for ret in (0, 1):
+                for after in ([], ["unref 1"], ["unref 2"], ["close 1", "unref 1"], ["unref 2", "unref 1"], ["flush", "unref 1"]):
+                    for tail in (["mouse 2 1 3 6", "mouse 3 1 3 6"], ["mouse 2 1 8 15", "mouse 2 1 3 5", "mouse 3 1 8 15"], ["mouse 3 1 0 0"]):
+                        emit("new 10 20"); emit("win 0 2 2 6 12 0"); emit("win 1 1 1 3 8 0")
+                        b = ("bind 2 mouse %d %s" % (ret, acts)).strip()
+                        if early: emit(b)
+                        emit("mouse 1 1 4 5")
+                        if not early: emit(b)
+                        emit("mouse 2 1 4 6")
+                        for o in after: emit(o)
+                        for o in tail: emit(o)
+                        emit("end"); ndr += 1
+    info = {"termout_histories": no, "timer_callback_histories": nwt, "drag_histories": ndr, "mock_display_histories": nm, "terminput_histories": nt, "toplevel_histories": ni, "mock_resize_histories": nr, "sigwinch_histories": nsw}
+    info.update({"exhaustive_bound": "all sequences of <=3 (and a seed-selected quarter of the length-4) operations over a 13-letter lifecycle alphabet on root>1>2, 3 sibling of 1, one pen, one self-unref key handler; each followed by flush and end; tickit_mockterm_get_display_text with every buffer length (short of the known exact-fill overflow) for every span of five fixed lines of multi-byte, double-width and combining cells; all sequences of <=3 operations over a 12-letter alphabet of terminal input calls with a quitting key handler on the terminal, and over a 14-letter alphabet of toplevel-instance calls on root>1>2; tickit_mockterm_resize from 3x4 to every size of 1..5 x 1..6 and on to a second size; all sequences of <=2 (and half of those of 3) operations over a 12-letter alphabet of observe/stop/destroy/SIGWINCH on four observing terminals; all sequences of <=3 (and a third of those of 4) operations over a 10-letter alphabet of output-buffer lengths, printing, flushing, cursor movement and the 19-parameter pen on an xterm terminal with both capabilities; all sequences of <=3 operations over a 10-letter alphabet of timers and deferred calls whose callbacks register further (past, present, future) timers and deferred calls; 576 drags on root>1>2 (8 handler behaviours of the source x bound before/after the press x claiming or not x 6 ways of dropping the chain afterwards x 3 continuations)", "histories": nh})
 else:
     scale = 1 if a.tier == "quick" else 5
-    fams = {"tree": 700, "handlers": 700, "foreign": 400, "objects": 400, "pens": 400, "copyout": 400, "terminput": 500, "toplevel": 500, "mockresize": 360, "sigwinch": 400}
+    fams = {"tree": 700, "handlers": 700, "foreign": 400, "objects": 400, "pens": 400, "copyout": 400, "terminput": 500, "toplevel": 500, "mockresize": 360, "sigwinch": 400, "drag": 400, "timers": 300, "termout": 400}
     if a.families:
         fams = {k: v for k, v in fams.items() if k in a.families.split(",")}
     for fam, n in fams.items():
@@ -804,6 +1088,9 @@ else:
             elif fam == "toplevel": gen_toplevel_history(rng)
             elif fam == "mockresize": gen_mockresize_history(rng, (RESIZE_KINDS[(_ // 3) % 3], RESIZE_KINDS[_ % 3]))
             elif fam == "sigwinch": gen_sigwinch_history(rng)
+            elif fam == "drag": gen_drag_history(rng)
+            elif fam == "timers": gen_timers_history(rng)
+            elif fam == "termout": gen_termout_history(rng)
             else: gen_copyout_history(rng)
             fam_count[fam] = fam_count.get(fam, 0) + 1
     info = {"histories": sum(fam_count.values()), "families": fam_count, "mresize_combinations": resize_mix}
